@@ -195,6 +195,7 @@ func c14Mutators(p mq.Packet) []sop {
 					fs[len(fs)-1].SetFilter("z")
 				}
 			}},
+			{Name: "SetSubscriptionID(900)", Call: func(q any) { q.(*mq.Subscribe).SetSubscriptionID(900) }},
 		}
 	}
 	switch a := p.(type) {
@@ -224,6 +225,16 @@ func c14Mutators(p mq.Packet) []sop {
 		if len(out) == 4 {
 			break
 		}
+	}
+	if _, ok := p.(*mq.Connect); ok && len(out) == 4 {
+		// a protocol name as long as the default one (a setter that reuses
+		// the old bytes writes into whatever else holds them), and a client
+		// id as long as the current one
+		out = append(out, sop{Name: "SetProtocolName(MQIs)", Call: func(q any) { q.(*mq.Connect).SetProtocolName("MQIs") }},
+			sop{Name: "SetClientID(same length)", Call: func(q any) {
+				c := q.(*mq.Connect)
+				c.SetClientID(strings.Repeat("Z", len(c.ClientID())))
+			}})
 	}
 	return out
 }
@@ -267,7 +278,7 @@ func c14Alphabet(pf *poolFrames) []poolOp {
 	for s := 0; s < 3; s++ {
 		ops = append(ops, poolOp{Name: fmt.Sprintf("encode(#%d)", s), Kind: 'e', Slot: s})
 		ops = append(ops, poolOp{Name: fmt.Sprintf("render(#%d)", s), Kind: 'd', Slot: s})
-		for m := 0; m < 5; m++ {
+		for m := 0; m < 6; m++ {
 			ops = append(ops, poolOp{Name: fmt.Sprintf("set%d(#%d)", m, s), Kind: 'm', Slot: s, Mutate: m})
 		}
 	}
@@ -607,8 +618,13 @@ func forwardCopy(p mq.Packet) mq.Packet {
 		}
 		set.Call(get.Call(nil))
 	}
-	// lists are forwarded with the spread form of the adders
+	// lists are forwarded with the spread form of the adders; the will of a
+	// CONNECT is handed on as it is (SetWill takes the pointer)
 	switch src := p.(type) {
+	case *mq.Connect:
+		if w := src.Will(); w != nil {
+			np.(*mq.Connect).SetWill(w)
+		}
 	case *mq.Subscribe:
 		np.(*mq.Subscribe).AddFilters(src.Filters()...)
 	case *mq.Unsubscribe:
